@@ -12,17 +12,11 @@ variable {α : Type} [Arith α]
 /-- `split_inclusive('\n')` -/
 def splitInclusive : List Char → List (List Char)
   | [] => []
-  | s =>
-    let line := s.takeWhile (· ≠ '\n')
-    let rest := s.dropWhile (· ≠ '\n')
-    match rest with
-    | [] => [line]
-    | nl :: rest' => (line ++ [nl]) :: splitInclusive rest'
-termination_by s => s.length
-decreasing_by
-  have h1 : (List.dropWhile (fun x => x ≠ '\n') s).length ≤ s.length :=
-    (List.dropWhile_sublist _).length_le
-  simp_all; omega
+  | c :: t =>
+    if c = '\n' then [c] :: splitInclusive t
+    else match splitInclusive t with
+      | [] => [[c]]
+      | l :: ls => (c :: l) :: ls
 
 def isFence (cs : CharSpec) (line : List Char) : Bool := trimEnd cs.uws line == ['-', '-', '-']
 
@@ -169,14 +163,15 @@ def metaBlocks : (fuel : Nat) → (last : TK) → List Tok → List (List Tok)
 def runMetaBlock (cs : CharSpec) (ext : Ext) (block : List Tok)
     (evs : Array (Ev α)) (panic : Option String) : Array (Ev α) × Option String :=
   let s0 : BP α := ⟨block, 0, ext, cs, evs, panic⟩
-  let ((), s) := (do
+  let body : P α Unit := do
     if block.isEmpty then panicWith "BlockParser::new: empty tokens"
     match ← metadataEntry with
     | some ev =>
       pushEv ev
       let s ← get
       if s.cur ≠ s.toks.length then panicWith "Block tokens not parsed"
-    | none => pure ()) s0
+    | none => pure ()
+  let s := (body s0).2
   (s.evs, s.panic)
 
 /-- `into_meta_iter` run to completion -/
